@@ -24,17 +24,17 @@ CHECKS = {
     'C05': ('exploration', T_SIM + 'sequential reference interpreter for the transcript, scheduler deadlock/horizon verdicts for hangs, live-thread census at close for leaks', SIM_NOTE,
             'generated pipelines x stop/failure positions x owned schedules; sync, async, SyncIter and AsyncIter variants; process executor with real worker processes; abandoned iterators freed by the cyclic garbage collector in fresh interpreters (ordinary context / inside threading.py critical section)'),
     'C08': ('exploration', T_SIM + 'invariants pulled-handed <= bound and running <= concurrency evaluated at every scheduling step', SIM_NOTE,
-            'generated chains x speed ratios x lengths (incl. unbounded sources) x owned schedules; bounds are observed to be attained'),
+            'generated chains x speed ratios (incl. consumer stalls beyond internal timeouts) x lengths (incl. unbounded sources) x owned schedules; bounds are observed to be attained; process executor: overlap of (pid, start, end) stamps taken inside real worker processes'),
     'C12': ('fault_enumeration', T_SIM + 'expectation table per ending for mpservice.threading.Thread with accessors racing start-up and the running target (exact virtual timeouts); ' + T_REAL + 'the full ending x kill-signal x phase table for mpservice Process is enumerated, accessor orders generated; expectation table for orderly endings, cross-accessor consistency predicate for kills and unpicklable results, every accessor must return', SIM_NOTE + ' ' + REAL_NOTE,
             'complete ending x kill x phase table (32 cells) with generated values, exception classes and accessor orders (Process), plus generated perturbations: child lingering after its outcome was sent, reaping thread delayed after waitpid, Process object collected inside threading.py critical section; generated endings x accessor sequences x owned schedules (Thread)'),
     'C13': ('exploration', T_REAL + 'reference-count model (live proxies anywhere + pickles in transit, cascade on container destruction) compared eventually with the server debug_info after every operation; live proxies usable; /dev/shm block exists iff referenced; empty server after cleanup', REAL_NOTE,
             'generated histories (create, pickle, unpickle once, cross-process transfers via a helper client process, nesting in hosted containers, managed() returns, Process arguments kept or handed over, deletions, helper exit) against one ServerProcess; a step that blocks on three fresh servers is a violation'),
     'C14': ('exploration', T_REAL + 'differential against a local twin object: return values (type and value), exception type/args + server-side traceback, hosted state through every proxy after each step, managed() returns are live proxies', REAL_NOTE,
-            'generated call histories over hosted list/dict/Value/Namespace/registered class through proxies in the main thread, a second thread and a helper process, incl. raising calls and dropping/re-obtaining all proxies'),
+            'generated call histories over hosted list/dict/Value/Namespace/registered class through proxies in the main thread, a second thread and a helper process, incl. raising calls (also of types the manager machinery itself raises, and unpicklable ones followed by the next call), the same hosted value wrapped twice, and dropping/re-obtaining all proxies'),
     'C15': ('exploration', 'property-based testing (Hypothesis) over generated exception classes/args/traceback depths/cause chains/hop sequences/EnsembleError nestings; oracle: round-trip clauses after every hop (class, args, state, is_remote_exception, first-hop traceback text contained; identical text when only forwarded)', 'Held on everything explored, never absence. Hops are pickle round trips inside one process; the exception zoo is restricted by construction to classes that round-trip under plain pickle.',
             'generated exception zoo x hop sequences (forward / re-raise) x nesting in EnsembleError'),
     'C16': ('exploration', T_SIM + 'differential sync vs async on identical inputs, both also against the sequential reference', SIM_NOTE,
-            'fifo_stream/async_fifo_stream and the four parmap variants on identical generated inputs, durations, preprocessor failures and flags'),
+            'fifo_stream/async_fifo_stream and the four parmap variants on identical generated inputs, durations, preprocessor failures, submission failures and flags; Server vs AsyncServer on identical request histories (legality incl. no answer after the deadline)'),
     'C02': ('exploration', T_SIM + 'reference evaluator of the generated servlet tree; legality rules for TimeoutError/ServerBacklogFull; generated object-identity allocator', SIM_NOTE,
             'generated servlet trees x request histories (failures, fail-fast errors, short timeouts) x concurrent callers and streams x owned schedules'),
     'C04': ('exploration', T_SIM + 'reference evaluator with generated fault sets; exception class+args+failure-site function name in the traceback text; exact batch-failure sets from the instrumented call log; real-process family for the process boundary', SIM_NOTE,
@@ -48,13 +48,13 @@ CHECKS = {
     'C03': ('exploration', 'property-based testing (Hypothesis): type-directed generated operator programs and inputs run under the deterministic scheduler (default schedule + short tapes); oracle: independent lazy reference interpreter (outputs, terminal exception, peek transcript), multiset for shuffle, pull counters for laziness', SIM_NOTE,
             'generated programs (0-6 operators) x inputs x consumption modes against a reference interpreter; laziness via an instrumented source'),
     'C10': ('exploration', T_SIM + 'each fork == source prefix with the source ending (type+args); pull counter; window invariant pulled-slowest <= buffer_size+2 at every step; deadlock/horizon verdicts; line-granular preemption inside _tee.py', SIM_NOTE,
-            '2-3 forks x buffer sizes x source lengths (0, 1, <=window, >window) x source failure positions x owned schedules incl. preemption between any two lines of the fork step'),
+            '2-3 forks x buffer sizes x source lengths (0, 1, <=window, >window) x source failure positions (generator sources and iterator objects that keep working after raising) x owned schedules incl. preemption between any two lines of the fork step'),
     'C11': ('fault_enumeration', T_SIM + 'every init-failure position of every generated servlet tree is enumerated (exhaustive per tree); enter must raise that error and leave nothing running; lifecycle histories with re-entry judged by the reference evaluator; real-process family for ProcessServlet incl. abandoned streams', SIM_NOTE + ' ' + REAL_NOTE,
             'complete enumeration of (servlet, worker index) init-failure positions per generated tree; generated workloads x enter/exit/re-enter cycles x owned schedules; sampled real processes incl. abandoned streams and timed-out calls whose 10 B-300 kB results are still in flight at exit'),
     'C17': ('exploration', T_SIM + 'per-round multiset equality, no cross-round leak, termination of every party (deadlock/horizon verdicts); exact stop latency of ResponsiveQueue in virtual time; sampled real threads/processes with a stop event', SIM_NOTE + ' ' + REAL_NOTE,
             'm x n parties x queue bounds x rounds separated by renew (optionally with next-round puts and late consumers before renew) x owned schedules incl. line-granular preemption inside queue.py; stop requests at generated virtual moments'),
     'C18': ('exploration', 'property-based testing (Hypothesis): framing round trip write_record -> generated chunking -> read_record (pure), and generated request sets / handler latencies / connection counts / payload sizes against a real unix-socket server and real FIFOs; oracle: payload equality at handler and requester, response token == request token, exception class/args/remote traceback, stream and pipe order', REAL_NOTE,
-            'generated payloads (newlines, header look-alikes, empty, multi-megabyte, nested) x chunk boundaries; concurrent tokenised requests over 1-4 connections with generated latencies; FIFO object sequences in both directions'),
+            'generated payloads (newlines, header look-alikes, empty, multi-megabyte, nested) x chunk boundaries; concurrent tokenised requests over 1-4 connections with generated latencies, staggered bursts of 40-120 requests, impatient callers, handlers failing with their own or with transport-typed exceptions; FIFO object sequences in both directions'),
     'C20': ('exploration', T_REAL + 'a collecting handler on the parent root logger must hold exactly the emitted records that pass the parent levels, once each, in emission order; join()/result() must return (watchdog, 3x rule)', REAL_NOTE,
             'generated record counts (0-2000) and sizes (1 B-64 kB), logger names/levels, position of the last record, target endings, parent handler speed; Process / ProcessServlet worker / ProcessPoolExecutor; records still unhandled when result() returns'),
     'C19': ('exploration', T_SIM + 'validity predicates over the (virtual time, batch) log: partition, sizes, exact deadline rule with stall budget 0', SIM_NOTE,
